@@ -42,6 +42,20 @@ def generate(rng, tier):
         c = case('sc%d' % i, rng.choice([4, 8]), ents)
         c.append([S('fseed'), rng.randrange(1 << 30)]); c.append([S('observe-hint'), path('obs%d' % i)])
         cases.append(c)
+    # nested scenarios: the observed module is g<i>::mesh with its own Header (and one imported by name from another module);
+    # the ancestor module g<i> does not exist yet (the change adds it with a clashing Header of the same size)
+    for i in range(n // 8):
+        k = rng.randint(2, 9)
+        lib = modent(path('lib%d' % i), module(defs=[type_def(True, 'Vec', [a_ident('packed')], [field(True, 'v', ty_arr(ty_id('u8'), k))])]))
+        priv = rng.random() < 0.5
+        mesh = modent(path('g%d' % i, 'mesh'), module(uses=[path('lib%d' % i, 'Vec')], defs=[
+            type_def(not priv, 'Header', [a_ident('packed')], [field(True, 'h', ty_arr(ty_id('u8'), 5))]),
+            type_def(True, 'Mesh', [a_ident('packed')], [field(True, 'header', ty_id('Header')), field(True, 'pos', ty_id('Vec')),
+                                                        field(True, 'next', ty_mptr(ty_id('Mesh')))])]))
+        ents = [lib, mesh]; rng.shuffle(ents)
+        c = case('ns%d' % i, rng.choice([4, 8]), ents)
+        c.append([S('fseed'), rng.randrange(1 << 30)]); c.append([S('observe-hint'), path('g%d' % i, 'mesh')])
+        cases.append(c)
     return cases
 
 def judge(c, impl, model):
@@ -149,6 +163,27 @@ def changes(c, rng):
                         m2 = list(ent[3]); m2[5] = ent[3][5] + [type_def(True, n_, [a_ident('packed')], [field(True, 'decoy', ty_arr(ty_id('u8'), 3))])]
                         ent2 = list(ent); ent2[3] = m2
                         out.append(('add-decoy-next-to-imported-type', c[:4] + [me[:idx + 1] + [ent2] + me[idx + 2:]] + c[5:], own))
+                break
+    # 1d. a new module that DEPENDS on the observed one: it imports one of its types by name (private ones included – pyxis
+    #     has no visibility check) and embeds it by value and behind a pointer.  Dependencies must not flow backwards.
+    own_types = [d for d in m_defs(modmap[tuple(own)]) if def_is_type(d)]
+    own_types.sort(key=lambda d: def_pub(d))          # private ones first
+    if own_types and ('zz_dep',) not in modmap:
+        t = own_types[0]
+        dep = module(uses=[path(*(list(own) + [def_name(t)]))], defs=[type_def(True, 'Dependent', [], [
+            field(True, 'p', ty_cptr(ty_id(def_name(t)))), field(True, 'q', ty_mptr(ty_arr(ty_id(def_name(t)), 2)))])],
+            xvals=[xval(True, 'g_dep', ty_cptr(ty_id(def_name(t))), [a_int('address', 0x6000_0000)])])
+        out.append(('add-dependent-module', c[:4] + [me + [modent(path('zz_dep'), dep)]] + c[5:], own))
+    # 1e. a new module at an ANCESTOR path of the observed (nested) module, defining types named like the ones the observed
+    #     module defines and mentions: enclosing modules are not in scope unless imported
+    if len(own) >= 2:
+        for cut in range(1, len(own)):
+            anc = tuple(own[:cut])
+            if anc not in modmap and anc not in imported:
+                names = sorted(set([def_name(d) for d in m_defs(modmap[tuple(own)])] + [n_ for (mp, n_) in R]))[:4]
+                adefs = [type_def(True, n_, [a_ident('packed')], [field(True, 'z', ty_arr(ty_id('u8'), 5))]) for n_ in names if not n_.endswith('Vftable')]
+                if adefs:
+                    out.append(('add-ancestor-module', c[:4] + [me + [modent(path(*anc), module(defs=adefs))]] + c[5:], own))
                 break
     # per-module edits
     for idx, ent in enumerate(me[1:]):
